@@ -7,6 +7,7 @@ import (
 	"strings"
 	"testing"
 
+	bexpr "github.com/hashicorp/go-bexpr"
 	"pgregory.net/rapid"
 
 	"verif/harness/bx"
@@ -129,6 +130,7 @@ func init() {
 		t.Logf("replay ok: %s ref %s", got, want)
 	}
 	replayers["TestC03_DeepLeft"] = replayers["TestC03_LongRuns"]
+	replayers["TestC03_RegexRuns"] = replayers["TestC03_LongRuns"]
 	replayers["TestC03_Table"] = func(t *testing.T, raw json.RawMessage) {
 		var c c03Case
 		if err := json.Unmarshal(raw, &c); err != nil {
@@ -153,6 +155,22 @@ func TestC03_Table(t *testing.T) {
 			d = 2
 		}
 		a, b, cx := g.Expr(d), g.Expr(d), g.Expr(1)
+		if rapid.IntRange(0, 5).Draw(t, "sameSelectorMatches") == 0 {
+			// several regular expressions on ONE selector (an allow-list): each operand keeps its own pattern, with its
+			// own inline flags - (?i), (?s), (?m), \Q - whatever its neighbours say
+			for try := 0; try < 6; try++ {
+				m := g.Match()
+				if n := ref.Probe(root, "", m.Sel.Parts); n != "found" {
+					continue
+				}
+				pats := []string{"(?i)^h", "^HELLO", "(?i)ABC", "^abc$", "(?s)a.b", "line.break", "(?m)^break$", "^break", `\Qa.b`, "a.b", "(?i)", "RED", "x|(?i)y", "Y", "(?U)a+", "^A", "foobar$", "(?i)FOO"}
+				mk := func(label string) bx.Expr {
+					return &bx.Match{Sel: m.Sel, Op: []bx.Op{bx.OpMatches, bx.OpMatches, bx.OpNotMatches}[rapid.IntRange(0, 2).Draw(t, label+"Op")], Lit: pats[rapid.IntRange(0, len(pats)-1).Draw(t, label)]}
+				}
+				a, b, cx = mk("patA"), mk("patB"), mk("patC")
+				break
+			}
+		}
 		c := &c03Case{A: bx.Marshal(a), B: bx.Marshal(b), C: bx.Marshal(cx), Datum: root, Opts: o,
 			Debug: bx.String(a) + " | " + bx.String(b) + " | " + bx.String(cx)}
 		oa, ob, skipped := c03Check(t, "TestC03_Table", c, chooser(t))
@@ -365,4 +383,82 @@ func TestC03_DeepLeft(t *testing.T) {
 		}
 		r.Case(text, depth >= 9, map[string]string{"levels": string(shape), "paren_depth": strconv.Itoa(strings.Count(text, "(")), "result": res.String()}, fmt.Sprintf("depth:%d", depth))
 	})
+}
+
+// TestC03_RegexRuns: several regular-expression tests on ONE selector joined by or / and - an
+// allow-list - is the shape an evaluator is most tempted to fuse. Each operand has its own
+// pattern with its own inline flags and quoting ((?i), (?s), (?m), (?U), \Q, an empty pattern,
+// a pattern that does not compile); the composite is the table applied to the operands'
+// own outcomes (exhaustive over values x ordered pattern pairs x forms).
+func TestC03_RegexRuns(t *testing.T) {
+	r := rec(t, "C03", c03Rule+"; TestC03_RegexRuns: 14 string values x ordered pairs of 20 patterns (inline flags, \\Q, empty, uncompilable) on one selector x 6 composite forms, against the table over the operands' own outcomes (exhaustive)")
+	r.Exhaustive = true
+	r.ExhaustiveOf = "value x ordered pattern pair x composite form"
+	evalCache = map[string]*bexpr.Evaluator{}
+	defer func() { evalCache = nil }()
+	values := []string{"hello world", "HELLO", "abc", "ABC", "line\nbreak", "a.b", "axb", "db-7", "DB-7", "web-1", "red", "Y", "y", ""}
+	pats := []string{"(?i)^h", "^HELLO", "(?i)ABC", "^abc$", "(?s)a.b", "line.break", "(?m)^break$", "^break", `\Qa.b`, "a.b", "(?i)", "RED", "x|(?i)y", "Y", "(?U)a+", "^db-", "(?i)^web-", "(", "^$", "(?i:D)B"}
+	strT := uni.Scalar(uni.KString)
+	rend := bx.NewRenderer(bx.Zero{})
+	rend.NoLayout = true
+	sel := bx.Sel{Parts: []string{"name"}}
+	n := 0
+	for _, v := range values {
+		root := &uni.Node{T: uni.MapOf(strT, uni.Iface()), Keys: []*uni.Node{uni.Str("name")}, Elems: []*uni.Node{uni.InIface(uni.Str(v))}}
+		d := root.Interface()
+		single := map[string]ref.Set{}
+		outcome := func(e bx.Expr) ref.Set {
+			text, _ := rend.Render(e)
+			res := runImpl(text, d, Opts{})
+			if res.CreateErr != nil {
+				t.Fatalf("harness: %q rejected: %v", text, res.CreateErr)
+			}
+			if res.Panic != nil {
+				violation(t, "C03", "TestC03_RegexRuns", newEvalCase(text, e, root, Opts{}), "Evaluate panicked on %q: %v", text, res.Panic)
+			}
+			return res.Outcome()
+		}
+		for _, p := range pats {
+			single[p] = outcome(&bx.Match{Sel: sel, Op: bx.OpMatches, Lit: p})
+		}
+		for _, p1 := range pats {
+			for _, p2 := range pats {
+				a, b := &bx.Match{Sel: sel, Op: bx.OpMatches, Lit: p1}, &bx.Match{Sel: sel, Op: bx.OpMatches, Lit: p2}
+				na := &bx.Match{Sel: sel, Op: bx.OpNotMatches, Lit: p1}
+				oa, ob := single[p1], single[p2]
+				forms := []struct {
+					e    bx.Expr
+					want ref.Set
+				}{
+					{&bx.Or{L: a, R: b}, tblOr(oa, ob)},
+					{&bx.And{L: a, R: b}, tblAnd(oa, ob)},
+					{&bx.Or{L: na, R: b}, tblOr(tblNot(oa), ob)},
+					{&bx.Or{L: a, R: &bx.Or{L: b, R: &bx.Match{Sel: sel, Op: bx.OpMatches, Lit: "^zz$"}}}, tblOr(oa, tblOr(ob, single2(single, outcome, sel, "^zz$")))},
+					{&bx.Not{X: &bx.Or{L: a, R: b}}, tblNot(tblOr(oa, ob))},
+					{&bx.And{L: &bx.Or{L: a, R: b}, R: &bx.Match{Sel: sel, Op: bx.OpNe, Lit: "zz"}}, tblAnd(tblOr(oa, ob), ref.T)},
+				}
+				for fi, f := range forms {
+					got := outcome(f.e)
+					if got != f.want {
+						text, _ := rend.Render(f.e)
+						violation(t, "C03", "TestC03_RegexRuns", newEvalCase(text, f.e, root, Opts{}), "%s on name=%q: got %s; on their own `name matches %q` gives %s and `name matches %q` gives %s, so the table gives %s", text, v, got, p1, oa, p2, ob, f.want)
+					}
+					n++
+					if fi == 0 {
+						r.Case(v+"\x00"+p1+"\x00"+p2, oa != ob, map[string]string{"value": v, "pattern1": p1, "pattern2": p2, "outcomes": oa.String() + ob.String()}, "cell:"+oa.String()+ob.String())
+					}
+				}
+			}
+		}
+	}
+	t.Logf("cases: %d", n)
+}
+
+func single2(single map[string]ref.Set, outcome func(bx.Expr) ref.Set, sel bx.Sel, p string) ref.Set {
+	if o, ok := single[p]; ok {
+		return o
+	}
+	o := outcome(&bx.Match{Sel: sel, Op: bx.OpMatches, Lit: p})
+	single[p] = o
+	return o
 }
